@@ -134,13 +134,8 @@ def scale_code(v: float):
     r = (v - 1.0) * tracing.RMS_DEN
     if r > 0 and abs(r - round(r)) < 1e-9 and r < 1e6:
         return {"typ": "rms", "a": int(round(r)), "b": 1}
-    q = v * v * tracing.RMS_DEN**2
-    for den in range(1, 2001):
-        num = q * den
-        if abs(num - round(num)) < 1e-9 * max(1.0, num) + 1e-7 and round(num) < 2**31 - 1:
-            g = math.gcd(int(round(num)), den)
-            return {"typ": "q", "a": int(round(num)) // g, "b": den // g}
-    return {"typ": "other", "a": 0, "b": 1}
+    # any other factor: its value is compared in floating point with the exact rational TLC exports (see check_mle)
+    return {"typ": "q", "a": 0, "b": 1}
 
 
 NOSC = {"typ": "none", "a": 0, "b": 1}
@@ -202,6 +197,31 @@ def normalise(events):
     return out
 
 
+def q_factors(events):
+    """raw values of all factors that are neither one nor an RMS value: (reported final scale, [rescaling factors])"""
+    reported, rescales = None, []
+    for e in events:
+        if e["op"] in ("rescale_n", "rescale_c") and scale_code(e["sc"][0])["typ"] == "q":
+            rescales.append(float(e["sc"][0]))
+        if e["op"] == "transition" and scale_code(e["sc"][1])["typ"] == "q":
+            rescales.append(float(e["sc"][1]))
+        if e["op"] == "marker" and e.get("name") == "finalize":
+            reported = float(e["o_scale"][-1])
+    return reported, rescales
+
+
+def check_mle(trace, mle_print):
+    """-> problem string or '' : the reported scale and every calibration factor equal TLC's exact quasi-MLE"""
+    reported, rescales = trace["raw_q"]
+    want = mle_print["sumsq"] / mle_print["den"] / tracing.RMS_DEN**2
+    if reported is None or abs(reported * reported - want) > 1e-10 * want:
+        return f"finalize: the reported output scale is not the quasi-MLE of the accepted data (reported {reported!r}; exact scale^2 = {mle_print['sumsq']}/({mle_print['den']} * 1024^2) = {want!r})"
+    for f in rescales:
+        if abs(f - reported) > 1e-12 * abs(reported):
+            return f"calibration: a marginal or conditional was not rescaled by the reported scale ({f!r} vs {reported!r})"
+    return ""
+
+
 def accepted_steps(err_events):
     """accepted (t_from, h) in order, from the scripted estimator's own log (ep >= 1 <=> accepted)"""
     steps = []
@@ -218,12 +238,25 @@ def validate(traces, timeout_s=900):
     """traces: list of {hdr, ev}; -> list of verdict dicts (tid, ok, at, why) + TLC result"""
     wd = tlc.make_workdir()
     try:
-        mod = tlc.write_model(wd, "tr", "TraceProbSolver", {"Traces": traces, "T0": 0}, check_deadlock=False)
+        tl = [{"hdr": t["hdr"], "ev": t["ev"]} for t in traces]
+        mod = tlc.write_model(wd, "tr", "TraceProbSolver", {"Traces": tl, "T0": 0}, check_deadlock=False)
         res = tlc.run_tlc(wd, mod, workers=1, timeout_s=timeout_s, heap="4g")
     finally:
         tlc.cleanup(wd)
     verdicts = {obj["tid"]: obj for tag, obj in res.prints if tag == "VERDICT"}
-    return [verdicts.get(i + 1) for i in range(len(traces))], res
+    mles = {obj["tid"]: obj for tag, obj in res.prints if tag == "MLE"}
+    out = []
+    for i, tr in enumerate(traces):
+        v = verdicts.get(i + 1)
+        if v is not None and v["ok"] and tr["hdr"]["solver"] == "mle" and "raw_q" in tr and any(e["name"] == "finalize" for e in tr["ev"]):
+            if (i + 1) not in mles:
+                v = dict(v, ok=False, why="finalize: no quasi-MLE exported for an MLE run")
+            else:
+                why = check_mle(tr, mles[i + 1])
+                if why:
+                    v = dict(v, ok=False, why=why, at=len(tr["ev"]) + 1)
+        out.append(v)
+    return out, res
 
 
 # ------------------------------------------------------------------ running the real code on the tracing SSM
@@ -295,7 +328,7 @@ class L1Runner:
             steps = [{"t": ck[i], "h": ck[i + 1] - ck[i]} for i in range(len(ck) - 1)]
         else:
             steps = accepted_steps(self.log.events)
-        return {"hdr": _hdr(self.solver_name, self.strat, self.initc, steps), "ev": normalise(TR.events)}, sol
+        return {"hdr": _hdr(self.solver_name, self.strat, self.initc, steps), "ev": normalise(TR.events), "raw_q": q_factors(TR.events)}, sol
 
 
 def validate_parallel(traces, chunk=12, nproc=8, timeout_s=1200):
